@@ -21,7 +21,7 @@ Definition block_step (f : nat) (sch : jschema) (m : string * jval) : option (li
   match alookup (fst m) (js_blocks sch) with
   | None => Some []
   | Some blk =>
-      map_opt (fun i => match jdecode f (inner_schema blk (fst i)) (snd i) with
+      map_opt (fun i => match jdecode f (inner_schema blk (fst i) (snd i)) (snd i) with
                         | Some c => Some (fst m, (fst i, c))
                         | None => None
                         end)
@@ -265,14 +265,16 @@ Qed.
 Definition ex_schema : jschema :=
   JSch ["name"] false
     [("res", JBlk 2 (JSch ["str"] false [("opts", JBlk 0 (JSch ["flag"] false []) [])])
-                    [((0, "aws"), JSch ["zone"] false [])]);
-     ("locals", JBlk 0 (JSch [] true []) [])].
+                    [(JCLabel 0 "aws", JSch ["zone"] false [])]);
+     ("locals", JBlk 0 (JSch [] true []) []);
+     ("backend", JBlk 0 (JSch ["kind"] false []) [(JCAttr "kind" "local" (Some "local"), JSch ["path"] false [])])].
 
 Definition ex_config : dbody :=
   DBody [("name", JStr "n")]
     [("res", [(["aws"; "a"], DBody [("str", JStr "x"); ("zone", JStr "${var.z}")] [("opts", [([], DBody [("flag", JLit "true")] [])])]);
               (["gcp"; "b"], DBody [] [])]);
-     ("locals", [([], DBody [("l0", JArr [JLit "1"; JStr "s"])] [])])].
+     ("locals", [([], DBody [("l0", JArr [JLit "1"; JStr "s"])] [])]);
+     ("backend", [([], DBody [("path", JStr "p")] []); ([], DBody [("kind", JStr "local"); ("path", JStr "q")] [])])].
 
 Example ex_conforms : conforms ex_schema ex_config = true /\ ddepth ex_config <= 3.
 Proof. split; [vm_compute; reflexivity|vm_compute; lia]. Qed.
